@@ -35,7 +35,7 @@ def one_case(run, ct, rng, net, ssa, plan, tlc_values, route=None):
         with core.watchdog(120):
             tree = observe.build_tree(ct, net, ssa)
             # the sliced state is reached along a route with queries in between and restore / re-remove detours
-            desc["route"] = c03.apply_plan(tree, net, [tuple(p) for p in plan], rng, route=desc.get("route"))
+            tree, desc["route"] = c03.apply_plan(tree, net, [tuple(p) for p in plan], rng, route=desc.get("route"))
             n = tree.nslices
             keys = [{inv[k]: int(v) for k, v in tree.slice_key(i).items()} for i in range(n)]
             opts = rng.choice([{}, {"prefer_einsum": True}, {"order": "dfs"}])
